@@ -134,7 +134,7 @@ func ocAtomOf(cfg ocCfg, names map[string]string, cond ssa.Value, pol bool, fiel
 		if ld, ok := l.(*ssa.UnOp); ok && ld.Op == token.MUL {
 			if fa, ok := ld.X.(*ssa.FieldAddr); ok {
 				f := core.FieldOfAddr(fa)
-				if f != nil && f.Name() == "state" && core.NamedOfShort(core.Deref(fa.X.Type())) == cfg.stateOwner {
+				if f != nil && core.FieldName(f) == "state" && core.NamedOfShort(core.Deref(fa.X.Type())) == cfg.stateOwner {
 					name, known := names[core.ConstKey(k)]
 					if !known {
 						return false
